@@ -31,6 +31,13 @@ Frames ==
       \* two transfers interleaved, both completed by adjacent frames (possibly in one read), then a one-of-one transfer
       [] Variant = 5 -> << FrP(2049, 0, P6, 1, 2, 1, <<1, 1>>), FrP(512, 0, P6, 2, 2, 1, <<2, 1>>), FrP(2049, 0, P6, 3, 2, 2, <<1, 2>>),
                            FrP(512, 0, P6, 4, 2, 2, <<2, 2>>), FrP(1796, 0, P6, 5, 1, 1, <<9>>), Fr(2, 0, P6, 6, <<>>) >>
+      \* a long frame first, then frames shorter than any position inside it: whatever the extractor remembers about
+      \* where it stopped looking in an unfinished frame is void once that frame has been taken
+      [] Variant = 6 -> << Fr(512, 0, P6, 1, [i \in 1..40 |-> i]), Fr(2, 0, P6, 2, <<>>), Fr(2, 0, P6, 3, <<>>),
+                           Fr(512, 0, P6, 4, <<9, 8, 7>>), Fr(2, 1, P10, 5, <<>>) >>
+      \* the same inside a transfer: a long first part, then short parts and plain frames
+      [] Variant = 7 -> << FrP(2049, 0, P6, 1, 3, 1, [i \in 1..40 |-> i]), Fr(2, 0, P6, 2, <<>>), FrP(2049, 0, P6, 3, 3, 3, <<3>>),
+                           FrP(2049, 0, P6, 4, 3, 2, <<2>>), Fr(2, 0, P6, 5, <<>>) >>
 Stream == Concat(Frames)
 Ends == [k \in 0..Len(Frames) |-> Len(Concat(SubSeq(Frames, 1, k)))]
 
